@@ -13,6 +13,8 @@ def ref_decode(s, plus=True):
     b = s.encode('utf-8')
     if plus:
         b = b.replace(b'+', b' ')
+    if 0x25 not in b:           # no '%': nothing to unescape (same result as the loop below)
+        return b.decode('utf-8', 'replace')
     out = bytearray()
     i, n = 0, len(b)
     while i < n:
